@@ -938,6 +938,8 @@ func (r *runner) run(dir string) scenResult {
 		case "fsizeunlimit":
 			syscall.Setrlimit(syscall.RLIMIT_FSIZE, &r.oldFsize)
 			atomic.StoreInt32(&ioFaultWindow, 0)
+		case "chmodhooks": // the hooks directory becomes unusable (world-writable) / usable again
+			os.Chmod(sc.HooksDir, os.FileMode(s.N))
 		case "fixtmp":
 			os.Remove(filepath.Join(r.base, ".tmp"))
 			atomic.StoreInt32(&ioFaultWindow, 0)
